@@ -37,6 +37,14 @@ def load_known_findings(pid: str) -> Dict[str, str]:
     return out
 
 
+def msg_slug(msg: str, words: int = 5) -> str:
+    """stable identification of an exception message: its first words, with
+    numbers, quoted text and generated names removed"""
+    msg = re.sub(r"'[^']*'|\"[^\"]*\"|\([^)]*\)|\[[^\]]*\]", " ", str(msg))
+    toks = [t for t in re.findall(r"[A-Za-z]+", msg)]
+    return "-".join(t.lower() for t in toks[:words]) or "no-message"
+
+
 def jsonable(x: Any) -> Any:
     try:
         json.dumps(x)
